@@ -50,6 +50,7 @@ func (l *Log) Load(context.Context, inmem.LoadHandler) error { return nil }
 
 // Put implements inmem.BackingStore.
 func (l *Log) Put(_ context.Context, typ resource.Type, r resource.Resource) error {
+	vrt.TouchKey("hx.Log", true) // the commit log is one object: commit orders are never merged by HB pruning
 	if vrt.Aborting() || l.Frozen {
 		return nil
 	}
@@ -65,6 +66,7 @@ func (l *Log) Put(_ context.Context, typ resource.Type, r resource.Resource) err
 
 // Destroy implements inmem.BackingStore.
 func (l *Log) Destroy(_ context.Context, typ resource.Type, p resource.Pointer) error {
+	vrt.TouchKey("hx.Log", true)
 	if vrt.Aborting() || l.Frozen {
 		return nil
 	}
@@ -79,10 +81,11 @@ func (l *Log) Destroy(_ context.Context, typ resource.Type, p resource.Pointer) 
 }
 
 // Len is the number of commits so far.
-func (l *Log) Len() int { return len(l.Entries) }
+func (l *Log) Len() int { vrt.TouchKey("hx.Log", false); return len(l.Entries) }
 
 // StateAt folds the first n commits into a map key(type/id) -> resource.
 func (l *Log) StateAt(n int) map[string]resource.Resource {
+	vrt.TouchKey("hx.Log", false)
 	m := map[string]resource.Resource{}
 	for _, c := range l.Entries[:n] {
 		k := string(c.Type) + "/" + string(c.ID)
@@ -97,6 +100,7 @@ func (l *Log) StateAt(n int) map[string]resource.Resource {
 
 // Before returns the resource state of (typ,id) right before commit n (nil if absent).
 func (l *Log) Before(n int, typ resource.Type, id resource.ID) resource.Resource {
+	vrt.TouchKey("hx.Log", false)
 	var r resource.Resource
 	for _, c := range l.Entries[:n] {
 		if c.Type == typ && c.ID == id {
@@ -229,6 +233,7 @@ func ErrClass(err error) string {
 
 // Count returns the number of commits of the given type so far.
 func (l *Log) Count(typ resource.Type) int {
+	vrt.TouchKey("hx.Log", false)
 	n := 0
 	for _, c := range l.Entries {
 		if c.Type == typ {
@@ -240,6 +245,7 @@ func (l *Log) Count(typ resource.Type) int {
 
 // OfType returns the commits of one type, re-indexed from 0.
 func (l *Log) OfType(typ resource.Type) []Commit {
+	vrt.TouchKey("hx.Log", false)
 	var out []Commit
 	for _, c := range l.Entries {
 		if c.Type == typ {
